@@ -8,6 +8,9 @@
 (*           without flag bits), len (body length), n (byte count WritePacket returned)         *)
 (*   Packet  one per successful ReadPacket: base, len, eq (body identical - compared in Go),     *)
 (*           consumed (byte count ReadPacket returned)                                          *)
+(*   Rejected ReadPacket returned an error for a packet whose type carries a flag the caller     *)
+(*           preset (Write.fl = "enc": Encrypted; "zpre": Compressed without compression) and    *)
+(*           the driver read on; consumed = bytes that call took from the transport             *)
 (*   Held    after the WHOLE sequence has been read: packet i, kept by the caller since its     *)
 (*           ReadPacket returned, still has the written body (eq) - a body that a later read    *)
 (*           overwrites is not "the same sequence of packets with identical bodies"             *)
@@ -16,6 +19,11 @@
 (* C01 statement: the packets read are the packets written, in order, with identical types      *)
 (* (modulo flag bits, Appendix B) and bodies, each read consumes exactly the bytes of its       *)
 (* packet, whatever the chunking; hence no error and nothing missing before the end.            *)
+(* "Every packet type and flag combination": a packet with a caller-preset flag is either       *)
+(* decoded or refused with an error for THAT packet - having consumed exactly its bytes, so     *)
+(* that every following packet still decodes (clause Misaligned/afterRejected:<flag>:...).      *)
+(* The statement is silent on what a body flagged Compressed but written raw decodes to: for    *)
+(* fl = "zpre" the body is not compared.                                                        *)
 (*                                                                                              *)
 (* C05 alphabet (driver c05):                                                                   *)
 (*   Case      cls = hostile input class                                                        *)
@@ -38,13 +46,14 @@ CONSTANTS MaxBodyKiB, KRead, KDispatch, SlackKiB
 BoundKiB(k) == k * MaxBodyKiB + SlackKiB
 
 VARIABLES written,  \* C01: accepted packets in write order
-          nr,       \* C01: ReadPacket calls that returned a packet so far
+          nr,       \* C01: ReadPacket calls that returned a packet or refused one so far
+          np,       \* C01: of these, calls that returned a packet (the others were refusals of flagged packets)
           nh,       \* C01: Held reports so far (one per decoded packet is mandatory)
           ended,    \* C01: the reader reported Eof or Err
           cls       \* C05: input class of the current case
-vars == <<l, viol, written, nr, nh, ended, cls>>
+vars == <<l, viol, written, nr, np, nh, ended, cls>>
 
-Init == l = 1 /\ viol = {} /\ written = <<>> /\ nr = 0 /\ nh = 0 /\ ended = FALSE /\ cls = "?"
+Init == l = 1 /\ viol = {} /\ written = <<>> /\ nr = 0 /\ np = 0 /\ nh = 0 /\ ended = FALSE /\ cls = "?"
 
 Detail(i) == IF i <= Len(written) THEN "cut=" \o written[i].cut \o ":" \o written[i].cls ELSE "past-end"
 Add(s) == viol' = viol \cup s
@@ -52,9 +61,9 @@ Add(s) == viol' = viol \cup s
 (* ------------------------------------ C01 ------------------------------------------------- *)
 TrWrite == /\ Is("Write")
            /\ written' = IF Ev.ok THEN Append(written, [cls |-> Ev.cls, cut |-> Ev.cut, base |-> Ev.base,
-                                                        len |-> Ev.len, n |-> Ev.n])
+                                                        len |-> Ev.len, n |-> Ev.n, fl |-> Ev.fl])
                          ELSE written
-           /\ l' = l + 1 /\ UNCHANGED <<viol, nr, nh, ended, cls>>
+           /\ l' = l + 1 /\ UNCHANGED <<viol, nr, np, nh, ended, cls>>
 
 TrPacket == /\ Is("Packet")
             /\ LET i == nr + 1 IN
@@ -62,26 +71,35 @@ TrPacket == /\ Is("Packet")
                ELSE IF i > Len(written) THEN Add({V("Extra", Detail(Len(written)))})
                ELSE LET w == written[i] IN
                     Add(  (IF Ev.base # w.base THEN {V("Type", Detail(i))} ELSE {})
-                     \cup (IF Ev.len # w.len \/ ~Ev.eq THEN {V("Body", Detail(i))} ELSE {})
+                     \cup (IF w.fl # "zpre" /\ (Ev.len # w.len \/ ~Ev.eq) THEN {V("Body", Detail(i))} ELSE {})
                      \cup (IF Ev.consumed # w.n THEN {V("Consumed", Detail(i))} ELSE {}))
-            /\ nr' = nr + 1 /\ l' = l + 1 /\ UNCHANGED <<written, nh, ended, cls>>
+            /\ nr' = nr + 1 /\ np' = np + 1 /\ l' = l + 1 /\ UNCHANGED <<written, nh, ended, cls>>
+
+TrRejected == /\ Is("Rejected")
+              /\ LET i == nr + 1 IN
+                 IF ended THEN Add({V("AfterEnd", Detail(i))})
+                 ELSE IF i > Len(written) THEN Add({V("Extra", Detail(Len(written)))})
+                 ELSE LET w == written[i] IN
+                      Add(  (IF w.fl = "none" THEN {V("ReadError", Detail(i))} ELSE {})
+                       \cup (IF Ev.consumed # w.n THEN {V("Misaligned", "afterRejected:" \o w.fl \o ":" \o Detail(i))} ELSE {}))
+              /\ nr' = nr + 1 /\ l' = l + 1 /\ UNCHANGED <<written, np, nh, ended, cls>>
 
 TrHeld == /\ Is("Held")
           /\ Add(IF Ev.eq THEN {} ELSE {V("BodyChangedLater", Detail(Ev.i))})
-          /\ nh' = nh + 1 /\ l' = l + 1 /\ UNCHANGED <<written, nr, ended, cls>>
+          /\ nh' = nh + 1 /\ l' = l + 1 /\ UNCHANGED <<written, nr, np, ended, cls>>
 
 TrErr == /\ Is("Err")
          /\ Add({V(CASE Ev.kind = "panic" -> "Panic" [] Ev.kind = "timeout" -> "Hang" [] OTHER -> "ReadError",
                    Detail(nr + 1))})
-         /\ ended' = TRUE /\ l' = l + 1 /\ UNCHANGED <<written, nr, nh, cls>>
+         /\ ended' = TRUE /\ l' = l + 1 /\ UNCHANGED <<written, nr, np, nh, cls>>
 
 TrEof == /\ Is("Eof")
          /\ Add(  (IF nr < Len(written) THEN {V("Missing", Detail(nr + 1))} ELSE {})
             \cup (IF Ev.rest # 0 THEN {V("Leftover", Detail(nr + 1))} ELSE {}))
-         /\ ended' = TRUE /\ l' = l + 1 /\ UNCHANGED <<written, nr, nh, cls>>
+         /\ ended' = TRUE /\ l' = l + 1 /\ UNCHANGED <<written, nr, np, nh, cls>>
 
 (* ------------------------------------ C05 ------------------------------------------------- *)
-TrCase == /\ Is("Case") /\ cls' = Ev.cls /\ l' = l + 1 /\ UNCHANGED <<viol, written, nr, nh, ended>>
+TrCase == /\ Is("Case") /\ cls' = Ev.cls /\ l' = l + 1 /\ UNCHANGED <<viol, written, nr, np, nh, ended>>
 
 CallX(stage, allowed, k, more) ==
   LET d == cls \o ":" \o stage IN
@@ -91,22 +109,22 @@ CallX(stage, allowed, k, more) ==
    \cup (IF ~Ev.panicked /\ ~Ev.timedOut /\ Ev.outcome \notin allowed THEN {V("Outcome", d)} ELSE {}))
 
 TooLarge   == IF Ev.outcome = "Packet" /\ Ev.bodyKiB > MaxBodyKiB THEN {V("BodyTooLarge", cls \o ":read")} ELSE {}
-TrRead     == Is("Read")     /\ CallX("read", {"Packet", "Error"}, KRead, TooLarge)    /\ l' = l + 1 /\ ended' = TRUE /\ UNCHANGED <<written, nr, nh, cls>>
+TrRead     == Is("Read")     /\ CallX("read", {"Packet", "Error"}, KRead, TooLarge)    /\ l' = l + 1 /\ ended' = TRUE /\ UNCHANGED <<written, nr, np, nh, cls>>
 Call(stage, allowed, k) == CallX(stage, allowed, k, {})
-TrDispatch == Is("Dispatch") /\ Call("dispatch", {"Reply", "Error"}, KDispatch) /\ l' = l + 1 /\ UNCHANGED <<written, nr, nh, ended, cls>>
+TrDispatch == Is("Dispatch") /\ Call("dispatch", {"Reply", "Error"}, KDispatch) /\ l' = l + 1 /\ UNCHANGED <<written, nr, np, nh, ended, cls>>
 
 (* ------------------------------------ common ---------------------------------------------- *)
-Known == {"Write", "Packet", "Held", "Err", "Eof", "Case", "Read", "Dispatch", "End"}
+Known == {"Write", "Packet", "Rejected", "Held", "Err", "Eof", "Case", "Read", "Dispatch", "End"}
 TrOther == /\ More /\ Ev.ev \notin Known
-           /\ Add({V("UnknownEvent", Ev.ev)}) /\ l' = l + 1 /\ UNCHANGED <<written, nr, nh, ended, cls>>
+           /\ Add({V("UnknownEvent", Ev.ev)}) /\ l' = l + 1 /\ UNCHANGED <<written, nr, np, nh, ended, cls>>
 
 \* a C01 trace must contain the reader's own end report and a C05 trace its Read report; a trace
 \* without it (dropped events) is rejected
-Final == IF ((written # <<>> \/ cls # "?") /\ ~ended) \/ nh # nr THEN {V("Incomplete", Detail(nr + 1))} ELSE {}
+Final == IF ((written # <<>> \/ cls # "?") /\ ~ended) \/ nh # np THEN {V("Incomplete", Detail(nr + 1))} ELSE {}
 TrEnd == /\ Is("End")
          /\ PrintT("VERDICT " \o ToJson([tr |-> Ev.tr, viol |-> SetToSeq(viol \cup Final)]))
-         /\ l' = l + 1 /\ viol' = {} /\ written' = <<>> /\ nr' = 0 /\ nh' = 0 /\ ended' = FALSE /\ cls' = "?"
+         /\ l' = l + 1 /\ viol' = {} /\ written' = <<>> /\ nr' = 0 /\ np' = 0 /\ nh' = 0 /\ ended' = FALSE /\ cls' = "?"
 
-Next == TrWrite \/ TrPacket \/ TrHeld \/ TrErr \/ TrEof \/ TrCase \/ TrRead \/ TrDispatch \/ TrOther \/ TrEnd
+Next == TrWrite \/ TrPacket \/ TrRejected \/ TrHeld \/ TrErr \/ TrEof \/ TrCase \/ TrRead \/ TrDispatch \/ TrOther \/ TrEnd
 Spec == Init /\ [][Next]_vars
 =============================================================================
